@@ -6,6 +6,11 @@ Theorems about `Model/Layout.lean` (the model of `Parser.check_alignment` / `val
 **every** field list whose members have alignment 1, 2, 4 or 8 dividing their element size
 (`wfInput`; that is what native types and validated nested structs provide — see `nested_wf`,
 which closes the induction over nesting depth), every array length, both `auto_pad` settings.
+
+Round 3 (mutation sweep): `accepted_size_is_natural` (the accepted size is the size a C compiler gives the user's own
+member list: padding is only what natural alignment needs), `size_error_justified` / `oversize_never_accepted` (the size
+limit in both directions, stated on the natural size: exactly 65535 bytes is accepted, the driver's `size_error_unjustified`
+clause is now this exact statement instead of a generous bound).
 -/
 namespace Pyrtma.C11
 open Pyrtma.Layout
@@ -155,6 +160,54 @@ theorem size_limit (ap : Bool) (fs : List Fld) (o : Out) (hc : checkAlignment ap
   unfold validate; simp only [this, hc]
   constructor <;> intro h <;> simp <;> omega
 
+/-- **Padding is only what a C compiler needs**: the size of whatever `check_alignment` accepts — padding fields written by
+the user, inserted automatically, or none — is the size a C compiler gives the user's own member list under natural
+alignment (`Spec.naturalSize`). -/
+theorem accepted_size_is_natural {ap : Bool} {fs : List Fld} {o : Out} (hw : wfInput fs = true)
+    (h : validate ap fs = .ok o) : o.size = naturalSize fs := by
+  obtain ⟨hne, _⟩ := accepted_facts hw h
+  have hemp : fs.isEmpty = false := by cases fs <;> simp_all
+  cases hc : checkAlignment ap fs with
+  | error e => simp [validate, hemp, hc] at h
+  | ok o' =>
+    simp only [validate, hemp, hc] at h
+    by_cases hs : 65535 < o'.size <;> simp [hs] at h
+    subst h
+    exact checked_size_natural hw hne hc
+
+/-- **The size limit in the other direction**: a definition is rejected as too large only if its naturally aligned size
+exceeds 65535 bytes (`Spec.sizeErrorJustified`) — a definition of exactly 65535 bytes is not. -/
+theorem size_error_justified (ap : Bool) {fs : List Fld} (hw : wfInput fs = true)
+    (h : validate ap fs = .error .tooLarge) : sizeErrorJustified fs = true := by
+  by_cases hne : fs = []
+  · subst hne; simp [validate] at h
+  have hemp : fs.isEmpty = false := by cases fs <;> simp_all
+  cases hc : checkAlignment ap fs with
+  | error e =>
+    simp [validate, hemp, hc] at h; subst h
+    exfalso
+    cases hl : lead ap fs 0 with
+    | error e =>
+      have := lead_error_is_alignment ap fs 0 e hl
+      simp [checkAlignment, hl, this] at hc
+    | ok v =>
+      obtain ⟨lf, ptr⟩ := v
+      rw [check_closed ap fs hw hne hl] at hc
+      unfold closed at hc
+      by_cases hg : gap ptr (S lf) = 0 <;> cases ap <;> simp [hg] at hc
+  | ok o' =>
+    simp only [validate, hemp, hc] at h
+    by_cases hs : 65535 < o'.size <;> simp [hs] at h
+    have := checked_size_natural hw hne hc
+    simp [sizeErrorJustified, naturalSize]; omega
+
+/-- …and conversely a definition whose natural size exceeds the limit is never accepted. -/
+theorem oversize_never_accepted (ap : Bool) {fs : List Fld} {o : Out} (hw : wfInput fs = true)
+    (h : validate ap fs = .ok o) : sizeErrorJustified fs = false := by
+  have hs := accepted_size_is_natural hw h
+  obtain ⟨_, _, _, _, _, _, _, _, _, hlim, _⟩ := accepted_facts hw h
+  simp [sizeErrorJustified]; omega
+
 /-- a result that contains an appended trailing pad does not have the input as its member list -/
 theorem pad_appended_ne {fs : List Fld} {lf : List (Fld × Nat)} {ptr : Nat} (hw : wfInput fs = true)
     (hlt : lead true fs 0 = .ok (lf, ptr)) (x : Fld × Nat) : (lf ++ [x]).map (·.1) ≠ fs := by
@@ -218,5 +271,10 @@ example : wfInput [⟨1,1,none,false⟩, ⟨4,4,none,false⟩, ⟨8,8,some 2,fal
 example : validate false [⟨1,1,none,false⟩, ⟨4,4,none,false⟩] = .error .alignment := by rfl
 example : validate false [⟨4,4,none,false⟩, ⟨2,2,some 2,false⟩] = .ok ⟨[(⟨4,4,none,false⟩,0), (⟨2,2,some 2,false⟩,4)], 4, 8⟩ := by rfl
 example : validate true [⟨8,8,some 8192,false⟩] = .error .tooLarge := by rfl
+/-- `size_error_justified` / `accepted_size_is_natural` are not vacuous: 65535 single bytes are accepted at exactly the
+limit, 65536 are rejected with a justified size error, and `{char; int32}` (5 declared bytes) is accepted with 8 -/
+example : sizeErrorJustified [⟨1,1,some 65535,false⟩] = false ∧ sizeErrorJustified [⟨1,1,some 65536,false⟩] = true := by decide
+example : naturalSize [⟨1,1,none,false⟩, ⟨4,4,none,false⟩] = 8 := by decide
+example : (validate true [⟨1,1,none,false⟩, ⟨4,4,none,false⟩]).toOption.map (·.size) = some 8 := by rfl
 
 end Pyrtma.C11
